@@ -27,6 +27,8 @@ func faultMenu(thorough bool) []fw.Fault {
 		{Kind: "cut_reset", CutAt: 639}, {Kind: "cut_close", CutAt: 639, Chunked: true},
 		{Kind: "trunc_chunked"}, {Kind: "trunc_cl"},
 		{Kind: "status", Status: 500}, {Kind: "status", Status: 404},
+		// answers that declare no Content-Type
+		{Kind: "ok", CT: "-"}, {Kind: "cut_close", CutAt: 200, CT: "-"}, {Kind: "cut_reset", CutAt: 200, CT: "-"}, {Kind: "trunc_chunked", CT: "-"}, {Kind: "trunc_cl", CT: "-"},
 	}
 	if thorough {
 		m = append(m, fw.Fault{Kind: "cut_stall", CutAt: 200}, fw.Fault{Kind: "cut_stall", CutAt: 0, Chunked: true},
@@ -340,6 +342,10 @@ func key(c *fw.Case) string {
 
 // class reduces a fault to its class for violation keys.
 func class(f fw.Fault) string {
+	if f.CT == "-" {
+		f.CT = ""
+		return class(f) + "/no-content-type"
+	}
 	switch {
 	case strings.HasPrefix(f.Kind, "cut_") && f.CutAt == 0:
 		return f.Kind + "@headers"
